@@ -32,7 +32,9 @@ XGroup(els) == [t |-> "x", els |-> els]
 
 RECURSIVE ElemSize(_), ElsSize(_), SumElems(_, _)
 SumElems(el, extra) == IF el = <<>> THEN 0 ELSE extra + ElemSize(Head(el)) + SumElems(Tail(el), extra)
-ElemSize(e) == CASE e.t = "s" -> 1 + KSz + e.v
+\* a value that does not fit next to its key is moved to its own slab and referenced (19 bytes)
+StoredV(v) == IF v > MaxInlineElem - KSz - 1 THEN 19 ELSE v
+ElemSize(e) == CASE e.t = "s" -> 1 + KSz + StoredV(e.v)
                  [] e.t = "g" -> 2 + ElsSize(e.els)
                  [] e.t = "x" -> 21
 ElsSize(els) == IF els.t = "h" THEN 8 + SumElems(els.el, 8) ELSE 6 + SumElems(els.el, 0)
